@@ -8,13 +8,15 @@ is regenerated from the source by translate/c22.py on every run.
 
 The model is the REPAIRED decoder (fixes/C22-trailer-terminator-counted.patch, finding F5).
 
-case = {"k": "dec", "max": int, "parts": [hex, ...], "cls": str,
+case = {"k": "dec", "max": int, "stream": hex, "cuts": [[offset, ...], ...], "cls": str,
         "exp": None | {"body": hex, "end": "F:<hex>" | "N" | "E"}}
+       -- the stream is delivered once per cut list, split at those offsets ([] = whole); the
+          observation is the "/"-joined list of the per-delivery-pattern results
      | {"k": "enc", "data": hex}
 """
 from __future__ import annotations
 
-from harness.common import COQ, REPO, Failure, Spec, coq_bytes, coq_list
+from harness.common import COQ, REPO, Failure, Spec, coq_list
 from translate import c22 as tr
 
 DEFAULT_MAX = 65536
@@ -61,12 +63,28 @@ def _decode_impl(parts: list[bytes], maxtr: int):
     return pieces, end
 
 
+def split_at(stream: bytes, cuts: list[int]) -> list[bytes]:
+    """deliveries for a cut list (same function as Run.split_at)"""
+    parts, pos = [], 0
+    for c in cuts:
+        k = max(c - pos, 0)
+        parts.append(stream[pos:pos + k])
+        pos = max(pos, c)
+    parts.append(stream[pos:])
+    return parts
+
+
+def _one(stream: bytes, cuts, maxtr: int) -> str:
+    pieces, end = _decode_impl(split_at(stream, cuts), maxtr)
+    return ",".join(x.hex() for x in pieces) + "|" + end
+
+
 def impl(case) -> str:
     if case["k"] == "enc":
         from twisted.web import http
         return b"".join(http.toChunk(bytes.fromhex(case["data"]))).hex()
-    pieces, end = _decode_impl([bytes.fromhex(x) for x in case["parts"]], case["max"])
-    return ",".join(x.hex() for x in pieces) + "|" + end
+    stream = bytes.fromhex(case["stream"])
+    return "/".join(_one(stream, cuts, case["max"]) for cuts in case["cuts"])
 
 
 # ------------------------------------------------------------------------------------------
@@ -163,35 +181,42 @@ def oracle(case, obs):
             if b"".join(pieces) != data or end != "F:":
                 return Failure(case, f"decoder does not invert toChunk: {pieces!r} {end}", "tochunk-roundtrip")
         return None
-    parts = [bytes.fromhex(x) for x in case["parts"]]
-    stream = b"".join(parts)
+    stream = bytes.fromhex(case["stream"])
     maxtr = case["max"]
-    dat, _, end = obs.partition("|")
-    body = bytes.fromhex(dat.replace(",", ""))
-    if any(x == "" for x in dat.split(",")) and dat != "":
-        return Failure(case, "dataCallback invoked with an empty byte string", "empty-data-callback")
+    results = obs.split("/")
+    if len(results) != len(case["cuts"]):
+        return Failure(case, "malformed observation", "log")
     zone = ":trailer-limit" if _trailer_zone(stream, maxtr) else ""
     exp = case.get("exp")
-    if exp is not None:
-        eb = bytes.fromhex(exp["body"])
-        if exp["end"] == "N":
-            if not eb.startswith(body):
-                return Failure(case, f"truncated stream: delivered {body!r} is not a prefix of the body", "exp:body-not-prefix")
-        elif exp["end"] != "E" and body != eb:
-            return Failure(case, f"delivered body {body!r} != encoded body {eb!r}", "exp:body" + zone)
-        if end != exp["end"]:
-            return Failure(case, f"{case['cls']}: expected ending {exp['end'][:40]}, got {end[:40]}",
-                           f"exp:{_kind(exp['end'])}->{_kind(end)}" + zone)
     rb, rend = ref_decode(stream, maxtr)
-    if (body, end) != (rb, rend):
-        what = "body" if body != rb else f"{_kind(rend)}->{_kind(end)}"
-        return Failure(case, f"reference decoder gives body={rb!r} end={rend[:40]}, implementation body={body!r} "
-                             f"end={end[:40]}", f"ref:{what}" + zone)
-    if len(parts) != 1:
-        wp, wend = _decode_impl([stream], maxtr)
-        if (b"".join(wp), wend) != (body, end):
-            return Failure(case, f"delivered whole: body={b''.join(wp)!r} end={wend[:40]}; as {len(parts)} deliveries: "
-                                 f"body={body!r} end={end[:40]}", f"seg:{_kind(wend)}->{_kind(end)}" + zone)
+    whole = None
+    for cuts, res in zip(case["cuts"], results):
+        how = f"deliveries cut at {cuts[:8]}{'...' if len(cuts) > 8 else ''}: " if cuts else "delivered whole: "
+        dat, _, end = res.partition("|")
+        body = bytes.fromhex(dat.replace(",", ""))
+        if dat != "" and any(x == "" for x in dat.split(",")):
+            return Failure(case, how + "dataCallback invoked with an empty byte string", "empty-data-callback")
+        if exp is not None:
+            eb = bytes.fromhex(exp["body"])
+            if exp["end"] == "N":
+                if not eb.startswith(body):
+                    return Failure(case, how + f"truncated stream: delivered {body!r} is not a prefix of the body",
+                                   "exp:body-not-prefix")
+            elif exp["end"] != "E" and body != eb:
+                return Failure(case, how + f"delivered body {body!r} != encoded body {eb!r}", "exp:body" + zone)
+            if end != exp["end"]:
+                return Failure(case, how + f"{case['cls']}: expected ending {exp['end'][:40]}, got {end[:40]}",
+                               f"exp:{_kind(exp['end'])}->{_kind(end)}" + zone)
+        if (body, end) != (rb, rend):
+            what = "body" if body != rb else f"{_kind(rend)}->{_kind(end)}"
+            return Failure(case, how + f"reference decoder gives body={rb!r} end={rend[:40]}, implementation "
+                                       f"body={body!r} end={end[:40]}", f"ref:{what}" + zone)
+        if whole is None:
+            whole = (body, end) if not cuts else tuple(
+                (lambda pe: (b"".join(pe[0]), pe[1]))(_decode_impl([stream], maxtr)))
+        if (body, end) != whole:
+            return Failure(case, how + f"body={body!r} end={end[:40]}, but delivered whole: body={whole[0]!r} "
+                                       f"end={whole[1][:40]}", f"seg:{_kind(whole[1])}->{_kind(end)}" + zone)
     return None
 
 
@@ -238,7 +263,7 @@ def _encoding(rng, big=False):
     """-> (stream without extra, body, trailer section length incl. final CRLF)"""
     chunks = []
     for _ in range(rng.choice([0, 1, 1, 2, 2, 3, 4])):
-        n = rng.choice([1, 1, 2, 3, 5, 9, 10, 15, 16, 17]) if not big else rng.choice([1, 16, 255, 256, 300, 4096])
+        n = rng.choice([1, 1, 2, 3, 5, 9, 10, 15, 16, 17]) if not big else rng.choice([1, 16, 255, 256, 257, 300, 1000])
         chunks.append(_rand_bytes(rng, n, rng.choice([None, b"\r\n0a;", b"abc"])))
     out = b""
     for c in chunks:
@@ -249,17 +274,17 @@ def _encoding(rng, big=False):
     return out, b"".join(chunks), len(tl) + 2
 
 
-def _splits(rng, stream, k):
-    cuts = sorted(rng.randrange(0, len(stream) + 1) for _ in range(k))
-    parts, prev = [], 0
-    for c in cuts + [len(stream)]:
-        parts.append(stream[prev:c])
-        prev = c
-    return parts
+def _cuts(rng, stream, k):
+    return sorted(rng.randrange(0, len(stream) + 1) for _ in range(k))
 
 
-def _case(parts, maxtr, cls, exp=None):
-    return {"k": "dec", "max": maxtr, "parts": [p.hex() for p in parts], "cls": cls, "exp": exp}
+def _bytewise(stream):
+    return list(range(1, len(stream)))
+
+
+def _case(stream, cutlists, maxtr, cls, exp=None):
+    return {"k": "dec", "max": maxtr, "stream": stream.hex(), "cuts": [list(c) for c in cutlists], "cls": cls,
+            "exp": exp}
 
 
 def _valid_cases(rng, n_streams, every_split_upto, big=False):
@@ -271,18 +296,16 @@ def _valid_cases(rng, n_streams, every_split_upto, big=False):
         maxtr = rng.choice([DEFAULT_MAX, DEFAULT_MAX, tsize, tsize + 1, tsize + 2, tsize + 5])
         stream = enc + extra
         exp = {"body": body.hex(), "end": "F:" + extra.hex()}
-        out.append(_case([stream], maxtr, "valid-whole", exp))
+        cl = [[]]
         if len(stream) <= every_split_upto:
-            for i in range(1, len(stream)):
-                out.append(_case([stream[:i], stream[i:]], maxtr, "valid-split2", exp))
-            out.append(_case([bytes([b]) for b in stream], maxtr, "valid-bytewise", exp))
-        for _ in range(3):
-            out.append(_case(_splits(rng, stream, rng.randrange(1, 6)), maxtr, "valid-splits", exp))
+            cl += [[i] for i in range(1, len(stream))] + [_bytewise(stream)]
+        cl += [_cuts(rng, stream, rng.randrange(1, 6)) for _ in range(3)]
+        out.append(_case(stream, cl, maxtr, "valid", exp))
         # truncation: every proper prefix of the encoding is data loss
         for cut in ([rng.randrange(0, len(enc)) for _ in range(3)] if len(enc) > every_split_upto // 2
                     else range(0, len(enc))):
             pre = enc[:cut]
-            out.append(_case(_splits(rng, pre, rng.randrange(0, 3)), maxtr, "truncated",
+            out.append(_case(pre, [[], _cuts(rng, pre, rng.randrange(1, 3))], maxtr, "truncated",
                              {"body": body.hex(), "end": "N"}))
     return out
 
@@ -313,10 +336,8 @@ def _limit_cases(rng, n):
             stream = head + b"".join(lines) + b"\r\n"
             end = "F:" if total <= maxtr else "E"
             exp = {"body": body.hex(), "end": end}
-            out.append(_case([stream], maxtr, f"trailer-limit{delta:+d}-whole", exp))
-            for i in range(len(head), len(stream)):
-                out.append(_case([stream[:i], stream[i:]], maxtr, f"trailer-limit{delta:+d}-split", exp))
-            out.append(_case([bytes([b]) for b in stream], maxtr, f"trailer-limit{delta:+d}-bytewise", exp))
+            cl = [[]] + [[i] for i in range(len(head), len(stream))] + [_bytewise(stream)]
+            out.append(_case(stream, cl, maxtr, f"trailer-limit{delta:+d}", exp))
     return out
 
 
@@ -363,11 +384,10 @@ def _mutation_cases(rng, n):
         else:
             stream = pre + bad_part + tail
             exp = {"body": expb.hex(), "end": "E"}
-        out.append(_case([stream], DEFAULT_MAX, "mut-" + kind + "-whole", exp))
-        for _ in range(3):
-            out.append(_case(_splits(rng, stream, rng.randrange(1, 5)), DEFAULT_MAX, "mut-" + kind + "-splits", exp))
+        cl = [[]] + [_cuts(rng, stream, rng.randrange(1, 5)) for _ in range(3)]
         if len(stream) < 80:
-            out.append(_case([bytes([b]) for b in stream], DEFAULT_MAX, "mut-" + kind + "-bytewise", exp))
+            cl += [_bytewise(stream)] + [[i] for i in range(1, len(stream))]
+        out.append(_case(stream, cl, DEFAULT_MAX, "mut-" + kind, exp))
     return out
 
 
@@ -379,10 +399,9 @@ def _soup_cases(rng, n):
         if rng.random() < 0.5:
             stream = rng.choice([b"1\r\na\r\n", b"0\r\n", b"2;x\r\nab\r\n0\r\n"]) + stream
         maxtr = rng.choice([DEFAULT_MAX, 3, 6, 9])
-        out.append(_case([stream], maxtr, "soup-whole", None))
-        out.append(_case(_splits(rng, stream, rng.randrange(1, 5)), maxtr, "soup-splits", None))
-        if rng.random() < 0.3:
-            out.append(_case([bytes([b]) for b in stream] + [b""], maxtr, "soup-bytewise", None))
+        cl = [[], _cuts(rng, stream, rng.randrange(1, 5)), _bytewise(stream) + [len(stream)]]
+        cl += [[i] for i in range(1, len(stream))]
+        out.append(_case(stream, cl, maxtr, "soup", None))
     return out
 
 
@@ -390,14 +409,14 @@ def gen(rng, tier):
     q = tier == "quick"
     cases = []
     cases += _valid_cases(rng, 60 if q else 1500, 60 if q else 120)
-    cases += _valid_cases(rng, 6 if q else 60, 0, big=True)
+    cases += _valid_cases(rng, 4 if q else 60, 0, big=True)
     cases += _limit_cases(rng, 6 if q else 80)
     cases += _mutation_cases(rng, 120 if q else 3000)
     cases += _soup_cases(rng, 400 if q else 12000)
     for _ in range(40 if q else 600):
         n = rng.choice([0, 1, 9, 10, 15, 16, 17, 255, 256, 257, 4095, 4096]) if rng.random() < 0.7 else rng.randrange(0, 70000)
-        if n > 5000 and q and rng.random() < 0.8:
-            n = n % 5000
+        if n > 3000 and (q or rng.random() < 0.97):
+            n = n % 3000
         cases.append({"k": "enc", "data": (_rand_bytes(rng, min(n, 40), b"ab\r\n") + b"z" * max(0, n - 40)).hex()})
     if not q:
         # the real limit: trailer section of 65534..65538 bytes, final CRLF whole and split
@@ -405,10 +424,18 @@ def gen(rng, tier):
             line = b"T: " + b"v" * (total - 2 - 3 - 2) + b"\r\n"
             stream = b"1\r\nz\r\n0\r\n" + line + b"\r\n"
             exp = {"body": b"z".hex(), "end": "F:" if total <= DEFAULT_MAX else "E"}
-            cases.append(_case([stream], DEFAULT_MAX, "real-limit-whole", exp))
-            cases.append(_case([stream[:-1], stream[-1:]], DEFAULT_MAX, "real-limit-split", exp))
-            cases.append(_case([stream[:-2], stream[-2:]], DEFAULT_MAX, "real-limit-split", exp))
+            n = len(stream)
+            cases.append(_case(stream, [[], [n - 1], [n - 2], [n - 3, n - 1]], DEFAULT_MAX, "real-limit", exp))
     return cases
+
+
+def _parts_case(parts, maxtr, cls, exp=None, also_whole=True):
+    stream = b"".join(parts)
+    cuts, pos = [], 0
+    for x in parts[:-1]:
+        pos += len(x)
+        cuts.append(pos)
+    return _case(stream, ([[]] if also_whole else []) + [cuts], maxtr, cls, exp)
 
 
 def corpus():
@@ -418,27 +445,27 @@ def corpus():
     for tl in (b"abcdefg\r\n", b"abcdefgh\r\n"):
         stream = b"0\r\n" + tl + b"\r\n"
         exp = {"body": "", "end": "E"}        # 9+2, 10+2 > 10 once the terminator is counted
-        out.append(_case([stream], 10, "F5-whole", exp))
-        out.append(_case([stream[:-1], stream[-1:]], 10, "F5-split", exp))
-    out.append(_case([b"0\r\nabcdef\r\n\r", b"\n"], 10, "F5-below-limit", {"body": "", "end": "F:"}))
+        out.append(_case(stream, [[], [len(stream) - 1]], 10, "F5", exp))
+    out.append(_parts_case([b"0\r\nabcdef\r\n\r", b"\n"], 10, "F5-below-limit", {"body": "", "end": "F:"}))
     # ... and at the real limit (65535 / 65536 bytes of trailer lines)
     for n in (65535, 65536):
         stream = b"0\r\n" + b"a" * (n - 2) + b"\r\n" + b"\r\n"
-        out.append(_case([stream], DEFAULT_MAX, "F5-real-whole", {"body": "", "end": "E"}))
-        out.append(_case([stream[:-1], stream[-1:]], DEFAULT_MAX, "F5-real-split", {"body": "", "end": "E"}))
+        out.append(_case(stream, [[], [len(stream) - 1]], DEFAULT_MAX, "F5-real", {"body": "", "end": "E"}))
     stream = b"0\r\n" + b"a" * (65534 - 2) + b"\r\n" + b"\r\n"
-    out.append(_case([stream[:-1], stream[-1:]], DEFAULT_MAX, "real-limit-ok", {"body": "", "end": "F:"}))
+    out.append(_case(stream, [[], [len(stream) - 1]], DEFAULT_MAX, "real-limit-ok", {"body": "", "end": "F:"}))
     # test-suite classics
-    out.append(_case([b"3\r\nabc\r\n5\r\n12345\r\n", b"a\r\n0123456789\r\n0\r\nServer-Timing: total;dur=123.4\r\n\r\n"],
-                     DEFAULT_MAX, "valid-splits", {"body": b"abc123450123456789".hex(), "end": "F:"}))
-    out.append(_case([b"0\r\n\r"], DEFAULT_MAX, "truncated", {"body": "", "end": "N"}))
-    out.append(_case([b"3\r\nabc\r\n0\r\n01234567", b"\r", b"A"], 10, "mut-trailer-too-long", {"body": b"abc".hex(), "end": "E"}))
-    out.append(_case([b"3; x=\x00\r\nabc\r\n"], DEFAULT_MAX, "mut-bad-ext-whole", {"body": "", "end": "E"}))
-    out.append(_case([b"0x3\r\nabc\r\n"], DEFAULT_MAX, "mut-nonhex-whole", {"body": "", "end": "E"}))
-    out.append(_case([b"-3\r\nabc\r\n"], DEFAULT_MAX, "mut-nonhex-whole", {"body": "", "end": "E"}))
-    out.append(_case([b"3\r\nabc!!!!"], DEFAULT_MAX, "mut-no-crlf-whole", {"body": b"abc".hex(), "end": "E"}))
-    out.append(_case([b"3" + b"0" * 1021 + b"\r", b"\n"], DEFAULT_MAX, "mut-long-line-ok", None))
-    out.append(_case([b"3" + b"0" * 1022 + b"\r", b"\n"], DEFAULT_MAX, "mut-long-line", None))
+    out.append(_parts_case([b"3\r\nabc\r\n5\r\n12345\r\n",
+                            b"a\r\n0123456789\r\n0\r\nServer-Timing: total;dur=123.4\r\n\r\n"],
+                           DEFAULT_MAX, "valid", {"body": b"abc123450123456789".hex(), "end": "F:"}))
+    out.append(_parts_case([b"0\r\n\r"], DEFAULT_MAX, "truncated", {"body": "", "end": "N"}))
+    out.append(_parts_case([b"3\r\nabc\r\n0\r\n01234567", b"\r", b"A"], 10, "mut-trailer-too-long",
+                           {"body": b"abc".hex(), "end": "E"}))
+    out.append(_parts_case([b"3; x=\x00\r\nabc\r\n"], DEFAULT_MAX, "mut-bad-ext", {"body": "", "end": "E"}))
+    out.append(_parts_case([b"0x3\r\nabc\r\n"], DEFAULT_MAX, "mut-nonhex", {"body": "", "end": "E"}))
+    out.append(_parts_case([b"-3\r\nabc\r\n"], DEFAULT_MAX, "mut-nonhex", {"body": "", "end": "E"}))
+    out.append(_parts_case([b"3\r\nabc!!!!"], DEFAULT_MAX, "mut-no-crlf", {"body": b"abc".hex(), "end": "E"}))
+    out.append(_parts_case([b"3" + b"0" * 1021 + b"\r", b"\n"], DEFAULT_MAX, "mut-long-line-ok", None))
+    out.append(_parts_case([b"3" + b"0" * 1022 + b"\r", b"\n"], DEFAULT_MAX, "mut-long-line", None))
     out.append({"k": "enc", "data": ""})
     out.append({"k": "enc", "data": b"Ffasfas\r\n".hex()})
     return out
@@ -447,53 +474,62 @@ def corpus():
 # ------------------------------------------------------------------------------------------
 
 
-def coq_bytes_rle(b: bytes) -> str:
-    """like common.coq_bytes, with long runs of one byte written as List.repeat (keeps 64 KiB cases small)"""
+def coq_bytes_fast(b: bytes) -> str:
+    """bytes -> Coq [list N] written with the named byte constants x00..xff of coq/C22/Run.v (a
+    numeral costs milliseconds to elaborate, a constant microseconds); long runs of one byte are
+    written with List.repeat"""
+    if not b:
+        return "(@nil N)"
+    lit = lambda x: "[" + ";".join(f"x{v:02x}" for v in x) + "]"
     if len(b) < 256:
-        return coq_bytes(b)
-    segs, i = [], 0
-    lit = bytearray()
+        return lit(b)
+    segs, i, cur = [], 0, bytearray()
     while i < len(b):
         j = i
         while j < len(b) and b[j] == b[i]:
             j += 1
         if j - i >= 64:
-            if lit:
-                segs.append(coq_bytes(bytes(lit)))
-                lit = bytearray()
-            segs.append(f"(List.repeat {b[i]}%N (N.to_nat {j - i}%N))")
+            if cur:
+                segs.append(lit(cur))
+                cur = bytearray()
+            segs.append(f"(List.repeat x{b[i]:02x} (N.to_nat {j - i}%N))")
         else:
-            lit += b[i:j]
+            cur += b[i:j]
         i = j
-    if lit:
-        segs.append(coq_bytes(bytes(lit)))
+    if cur:
+        segs.append(lit(cur))
     return "(" + " ++ ".join(segs) + ")"
 
 
 def to_coq(case):
     if case["k"] == "enc":
-        return f"CEnc {coq_bytes_rle(bytes.fromhex(case['data']))}"
-    parts = coq_list((coq_bytes_rle(bytes.fromhex(p)) for p in case["parts"]), "(list N)")
-    return f"CDec {case['max']}%N {parts}"
+        return f"CEnc {coq_bytes_fast(bytes.fromhex(case['data']))}"
+    cuts = coq_list((coq_list((f"{c}%N" for c in cl), "N") for cl in case["cuts"]), "(list N)")
+    return f"CDec {case['max']}%N {coq_bytes_fast(bytes.fromhex(case['stream']))} {cuts}"
 
 
 def shrink(case):
     if case["k"] != "dec":
         return
-    parts = case["parts"]
     base = {**case, "exp": None, "cls": "shrunk"}
-    for i in range(len(parts) - 1):
-        yield {**base, "parts": parts[:i] + [parts[i] + parts[i + 1]] + parts[i + 2:]}
-    for i, p in enumerate(parts):
-        b = bytes.fromhex(p)
-        for j in range(len(b)):
-            yield {**base, "parts": parts[:i] + [(b[:j] + b[j + 1:]).hex()] + parts[i + 1:]}
+    if len(case["cuts"]) > 1:
+        for cl in case["cuts"]:
+            yield {**base, "cuts": [[], cl] if cl else [[]]}
+        return
+    stream = bytes.fromhex(case["stream"])
+    for cl in case["cuts"]:
+        for i in range(len(cl)):
+            yield {**base, "cuts": [[], cl[:i] + cl[i + 1:]]}
+    for j in range(len(stream)):
+        yield {**base, "stream": (stream[:j] + stream[j + 1:]).hex(),
+               "cuts": [[c - (1 if c > j else 0) for c in cl] for cl in case["cuts"]]}
 
 
 def histogram(case, obs):
     if case["k"] == "enc":
         return "toChunk"
-    return case["cls"].split("-whole")[0].split("-split")[0].split("-bytewise")[0] + " -> " + obs.partition("|")[2][:1]
+    ends = sorted({r.partition("|")[2][:1] for r in obs.split("/")})
+    return case["cls"] + " -> " + "".join(ends)
 
 
 SPEC = Spec(
@@ -503,7 +539,7 @@ SPEC = Spec(
     coq_fn="run_show",
     to_coq=to_coq,
     regen=lambda: tr.regen(REPO, COQ),
-    nontrivial=lambda c, o: c["k"] == "dec" and len(bytes.fromhex("".join(c["parts"]))) > 4,
+    nontrivial=lambda c, o: c["k"] == "dec" and len(c["stream"]) > 8,
     histogram=histogram,
     case_timeout=20.0,
     rule="valid encodings (0-4 chunks, mixed-case / zero-padded sizes, extensions, 0-3 trailer lines, extra bytes; "
